@@ -47,3 +47,38 @@ Example C01_nondataclass_escapes :
   let c := mkCfg V16 [("Heartbeat", mkRoute (Some h) None false)] in
   existsb is_escape (route_message shipped actions_of c (Loaded (JArr [JNum (NInt 2%Z); JStr "i"; JStr "Heartbeat"; JObj []]))) = true.
 Proof. vm_compute. reflexivity. Qed.
+
+(* ---- the same over raw texts: the frame is any string, parsed by the json.loads model ---- *)
+From OV.Model Require Import JsonParse FrameText.
+
+Definition route_message_text (limit : nat) (c : cfg) (raw : string) : list event :=
+  route_message shipped actions_of c (outcome_of (loads limit raw)).
+
+Theorem C01_text_no_escape :
+  forall limit c raw, routes_known c -> handlers_total c ->
+                      existsb is_escape (route_message_text limit c raw) = false.
+Proof. intros limit c raw Hk Ht. apply C01_no_escape; assumption. Qed.
+Print Assumptions C01_text_no_escape.
+
+Theorem C01_text_at_most_one_reply :
+  forall limit c raw, routes_known c -> handlers_total c ->
+                      List.length (filter is_reply (route_message_text limit c raw)) <= 1.
+Proof.
+  intros limit c raw Hk Ht. unfold route_message_text.
+  destruct (outcome_of (loads limit raw)) as [j|] eqn:E.
+  - destruct (unpack_v j) as [[id a p | id p a | id cd d x] | e] eqn:U.
+    + destruct (C01_exactly_one_reply c j id a p Hk Ht U) as [r [H _]]. rewrite H. simpl. auto.
+    + destruct (C01_silent_otherwise c (Loaded j)) as [H _]; [simpl; rewrite U; discriminate|]. rewrite H. simpl. auto.
+    + destruct (C01_silent_otherwise c (Loaded j)) as [H _]; [simpl; rewrite U; discriminate|]. rewrite H. simpl. auto.
+    + destruct (C01_silent_otherwise c (Loaded j)) as [H _]; [simpl; rewrite U; discriminate|]. rewrite H. simpl. auto.
+  - destruct (C01_silent_otherwise c LoadsRaised) as [H _]; [simpl; discriminate|]. rewrite H. simpl. auto.
+Qed.
+Print Assumptions C01_text_at_most_one_reply.
+
+Example C01_text_example :
+  let h := mkHandler "on_heartbeat" (mkSig [] [] true false) (fun _ _ => HRet (JObj [("current_time", JStr "t")])) in
+  let c := mkCfg V16 [("Heartbeat", mkRoute (Some h) None false)] in
+  route_message_text 1000 c " [2, ""i"", ""Heartbeat"", {}] "
+  = [EvHandler "on_heartbeat" (JObj []) None; EvResult (JStr "i") (JObj [("currentTime", JStr "t")])]
+  /\ route_message_text 1000 c "[2, ""i"", ""Heartbeat"", {}" = [].
+Proof. vm_compute. split; reflexivity. Qed.
